@@ -218,7 +218,10 @@ func (m *lifeMon) hook(sock int) mangos.PipeEventHook {
 
 var wrappedSocks sync.Map
 
-func (m *lifeMon) wrapped(sock int) bool { _, ok := wrappedSocks.Load(fmt.Sprintf("%p/%d", m, sock)); return ok }
+func (m *lifeMon) wrapped(sock int) bool {
+	_, ok := wrappedSocks.Load(fmt.Sprintf("%p/%d", m, sock))
+	return ok
+}
 
 // recProto wraps the real protocol, recording AddPipe/RemovePipe and refusing on script.
 type recProto struct {
